@@ -72,7 +72,7 @@ func New(r *simrt.Rng, p Params) *G {
 	// revisit values), plus a few that are valid but unusual as list keys and leaf values:
 	// a colon (module-prefix look-alike), a slash, '=', a space, a dot, a leading digit
 	return &G{R: r, P: p, Strs: []string{"a", "b", "c", "ab", "xyz", "q", "foo", "k", "a", "b", "c", "ab",
-		"65000:100", "eth0:1", "ge-0/0/1", "k=v", "x y", "1.2.3.4", "9lives", "ab:cd:ef", "7", "123", "007", "true", "AB12", "X9", "a<b>&c", "x", "y a"}}
+		"65000:100", "eth0:1", "ge-0/0/1", "k=v", "x y", "1.2.3.4", "9lives", "ab:cd:ef", "7", "123", "007", "true", "AB12", "X9", "a<b>&c", "x", "y a", "*"}}
 }
 
 func (g *G) chance(p float64) bool {
